@@ -489,7 +489,8 @@ def run_case(seed, kind=None, profile=None, mode=None, nops=None):
     if T.conv_oracle is not None:
         T.conv_oracle.finish(env.now)
     # C11: the value the delay source handed out is the delay that travels with the item (drawn once per put, unchanged)
-    if T.delay_src is not None and T.delay_src.style != "const" and exc is None and not sh.dead:
+    if T.delay_src is not None and T.delay_src.style != "const" and exc is None and not sh.dead and not mode.get("illformed"):
+        # (histories with injected ill-formed puts are left out: a rejected put has consumed a draw as well)
         drawn = list(T.delay_src.values)
         seen = [d for d in sh.delays_log]
         mon.counters["c11_delay_draws_checked"] += len(seen)
